@@ -33,3 +33,17 @@ Section Defs.
 End Defs.
 Arguments integrate {R}. Arguments measure {R}. Arguments mass_entry {R}. Arguments mass_total {R}.
 Arguments affine_dx {R}.
+
+Section Stiffness.
+  Variable R : Type.
+  Variable O : ops R.
+  (* physical gradient = B^T * reference gradient with B = inverse Jacobian (B k m = d xi_k / d x_m):
+     grad phi_i . grad phi_j at point q, for reference gradients gi k q = d_k phi_i (x_q) *)
+  Definition gdot (d : nat) (B : nat -> nat -> R) (gi gj : nat -> nat -> R) (q : nat) : R :=
+    rsum O (seq 0 d) (fun m => omul O (rsum O (seq 0 d) (fun k => omul O (B k m) (gi k q)))
+                                      (rsum O (seq 0 d) (fun l => omul O (B l m) (gj l q)))).
+  (* G = B B^T *)
+  Definition gramB (d : nat) (B : nat -> nat -> R) (k l : nat) : R :=
+    rsum O (seq 0 d) (fun m => omul O (B k m) (B l m)).
+End Stiffness.
+Arguments gdot {R}. Arguments gramB {R}.
